@@ -630,7 +630,56 @@ def r9_anchor_polarity(ctx):
     ctx.floor('app-level dependency registrations in add_evolutions', seen, 2)
 
 
+def r10_mutation_deps_merged(ctx):
+    """An evolution's requirements are the ones its module declares *plus*
+    the ones its mutations generate (MoveToDjangoMigrations: after the
+    migrations it marks as applied).  Folding the generated ones into the
+    dict must merge per key; a dict-level update()/assignment replaces the
+    declared set under that key and the declared requirement silently
+    disappears from the graph."""
+    ctx.rule('R-C09.10')
+    p = ctx.program
+    f = p.func('utils.evolutions', 'get_evolution_dependencies')
+    g = ctx.cfg(f)
+    from ..flow import ReachingDefs
+    rd = ReachingDefs(g, f.params)
+    n_folds = 0
+    for n in g.nodes:
+        for c in n.calls():
+            if not (isinstance(c.func, ast.Attribute) and
+                    c.func.attr in ('update', '__ior__') and c.args):
+                continue
+            src = ' '.join(unparse(e) for _, e in rd.origins(n, c.args[0]))
+            if 'generate_dependencies' not in src:
+                continue
+            n_folds += 1
+            tgt = c.func.value
+            if isinstance(tgt, ast.Subscript):
+                ctx.ok(f, 'generated requirements are merged into the '
+                       'declared set of their key', c)
+            else:
+                ctx.finding(f, c, '%s replaces the declared requirement sets '
+                            'by the ones a mutation generates (dict-level '
+                            'update): an evolution that contains '
+                            'MoveToDjangoMigrations loses its own '
+                            'AFTER_MIGRATIONS' % ' '.join(unparse(c).split()),
+                            key='mutation-deps-overwrite')
+        a = n.ast
+        if n.kind == 'stmt' and isinstance(a, ast.Assign) and any(
+                isinstance(t, ast.Subscript) and
+                unparse(t.value) == 'deps' for t in a.targets):
+            src = ' '.join(unparse(e) for _, e in rd.origins(n, a.value))
+            if 'generate_dependencies' in src and 'deps[' not in \
+                    unparse(a.value):
+                n_folds += 1
+                ctx.finding(f, a, 'deps[...] is assigned (not merged) from '
+                            'the requirements a mutation generates',
+                            key='mutation-deps-overwrite')
+    ctx.floor('folds of mutation-generated requirements', n_folds, 1)
+
+
 def run(ctx):
+    r10_mutation_deps_merged(ctx)
     r9_anchor_polarity(ctx)
     r8_applied_from_evolved_database(ctx)
     r7_mapping_key_kinds(ctx)
